@@ -50,6 +50,14 @@ func (k *PCase) remOfKey(key [3]int64) int {
 	return len(k.Remedies)
 }
 
+// an action of Scrape.v ([mcact]): an action of Plugin.v or a metrics read
+func coqMAct(k *PCase, a PAct) string {
+	if a.K == "Scrape" {
+		return "MCScrape " + c.Z(a.Now)
+	}
+	return "MC (" + coqPAct(k, a) + ")"
+}
+
 func coqPAct(k *PCase, a PAct) string {
 	id, now, rem := c.Z(int64(a.ID)), c.Z(a.Now), c.Nat(a.Rem)
 	switch a.K {
@@ -79,7 +87,7 @@ func coqPCase(k *PCase) string {
 			}
 			return c.Tuple(coqKey([3]int64{k.nameID(r.Name), r.Quota, r.WSec}), coqPar(r))
 		}),
-		c.MapList(k.Actions, func(a PAct) string { return coqPAct(k, a) }),
+		c.MapList(k.Actions, func(a PAct) string { return coqMAct(k, a) }),
 		c.MapList(k.Counts, c.OptZ),
 		c.MapList(k.Results, func(r PRes) string {
 			rem := "None"
@@ -128,6 +136,41 @@ func recordP(o *c.Out, k *PCase) {
 				refusedTTL = true
 			}
 		}
+	}
+	// metrics reads: where in the history they fell
+	scrapes, waitingNow := 0, 0
+	granted := map[[3]int64]map[int64]int64{} // per remedy key and aligned window: requests let through so far
+	for _, e := range k.Events {
+		switch e.K {
+		case "arrive":
+			if !e.Immediate {
+				waitingNow++
+			}
+			if e.Immediate && e.Kind == "noop" {
+				noteGrant(k, granted, e.Rem, e.At)
+			}
+		case "ret":
+			waitingNow--
+			if e.Kind == "noop" {
+				noteGrant(k, granted, e.Rem, e.At)
+			}
+		case "scrape":
+			scrapes++
+			switch {
+			case waitingNow > 0:
+				o.Count("plugin:scrape:while-somebody-waits")
+			case quotaTouched(k, granted, e.At):
+				o.Count("plugin:scrape:idle-after-quota-was-consumed-in-the-window")
+			default:
+				o.Count("plugin:scrape:idle-window-untouched")
+			}
+		}
+	}
+	if scrapes > 0 {
+		o.Count("plugin:histories-with-metrics-reads")
+	}
+	if k.NoGauge {
+		o.Count("plugin:no-gauge-callback-registered")
 	}
 	keys := map[[3]int64]bool{}
 	for _, r := range k.Results {
@@ -183,6 +226,24 @@ func recordP(o *c.Out, k *PCase) {
 	}
 }
 
+func noteGrant(k *PCase, granted map[[3]int64]map[int64]int64, rem int, at int64) {
+	key := k.key(rem)
+	if granted[key] == nil {
+		granted[key] = map[int64]int64{}
+	}
+	granted[key][at/(k.Remedies[rem].WSec*sec)]++
+}
+
+// some remedy has let a request through in its aligned window containing `at`
+func quotaTouched(k *PCase, granted map[[3]int64]map[int64]int64, at int64) bool {
+	for key, m := range granted {
+		if key[2] > 0 && m[at/(key[2]*sec)] > 0 {
+			return true
+		}
+	}
+	return false
+}
+
 // ---------------------------------------------------------------- generators
 
 type pgen struct {
@@ -192,6 +253,8 @@ type pgen struct {
 	next int
 	nops int
 	maxW int64
+
+	scrapes bool // this history contains metrics reads
 }
 
 func (g *pgen) over() bool { return g.nops >= opBudget }
@@ -210,6 +273,15 @@ func (g *pgen) do(op POp) bool {
 
 func (g *pgen) now() int64 { return g.x.clk.nowNs() }
 
+// a metrics collection may fall anywhere: between two arrivals of a burst
+// (quota consumed, nobody waits), while waiters are parked, right before / after
+// a roll-over pass or a TTL expiry, across window ends
+func (g *pgen) maybeScrape(num, den int) {
+	if g.scrapes && g.r.Chance(num, den) {
+		g.do(POp{K: "scrape"})
+	}
+}
+
 // advance to `to` firing every due timer in deadline order: roll-over passes
 // before TTLs of the same instant would hide nothing the property speaks about,
 // so ties are fired in random order
@@ -227,11 +299,13 @@ func (g *pgen) adv(to int64) {
 		if d.deadline > g.now() {
 			g.do(POp{K: "set", To: d.deadline})
 		}
+		g.maybeScrape(1, 6)
 		if d.tick {
 			g.do(POp{K: "firetick", Inst: d.inst})
 		} else {
 			g.do(POp{K: "firettl", ID: d.id})
 		}
+		g.maybeScrape(1, 6)
 	}
 	if to > g.now() {
 		g.do(POp{K: "set", To: to})
@@ -341,7 +415,7 @@ func newPGen(o *c.Out, rems []PRemedy, forced bool) *pgen {
 	base := int64(1_700_000_000) * sec
 	base -= base % (6 * sec) // a boundary of every window size used
 	k.T0 = base + c.Pick(r, []int64{0, 1, sec / 2, sec - 1, sec, 2*sec + 7})
-	g := &pgen{r: r, k: k, next: 1}
+	g := &pgen{r: r, k: k, next: 1, scrapes: r.Chance(2, 3)}
 	for _, rem := range rems {
 		if rem.WSec*sec > g.maxW {
 			g.maxW = rem.WSec * sec
@@ -374,7 +448,9 @@ func (g *pgen) instant() int64 {
 // that are started (or let out of the factory) by different operations get the
 // same timestamp
 func (g *pgen) start(rem int, hold bool, hdrs map[string]string) int {
+	g.maybeScrape(1, 4)
 	g.adv(g.now() + 1)
+	g.maybeScrape(1, 8)
 	id := g.next
 	g.next++
 	g.do(POp{K: "start", ID: id, Rem: rem, Hdrs: hdrs, Hold: hold})
@@ -384,6 +460,7 @@ func (g *pgen) start(rem int, hold bool, hdrs map[string]string) int {
 func (g *pgen) arrive(rem int) {
 	id := g.start(rem, false, g.hdrsFor(rem))
 	g.do(POp{K: "enq", ID: id})
+	g.maybeScrape(1, 5)
 }
 
 func (g *pgen) drain() {
@@ -424,6 +501,11 @@ func genPluginSeq(o *c.Out) *PCase {
 		switch {
 		case r.Chance(1, 14):
 			g.do(POp{K: "resp", ID: r.Range(1, g.next), Rem: r.Intn(len(g.k.Remedies))})
+		case r.Chance(1, 10):
+			g.maybeScrape(1, 1)
+			if r.Chance(1, 3) { // two collections in a row (two readers)
+				g.maybeScrape(1, 1)
+			}
 		case r.Chance(1, 8):
 			// two requests take their timestamps in one order and enter the queue in the other
 			rem := r.Intn(len(g.k.Remedies))
@@ -597,6 +679,57 @@ func scriptedPlugin(o *c.Out, maxN int) {
 					})
 				}
 			}
+		}
+	}
+}
+
+// scripted histories with metrics reads: one remedy (quota q per 2 s, TTL 1.5 s,
+// queue size 2) and a second one with the same strategy; a metrics collection at
+// every subset of six positions: before anything, after the quota of the window
+// was consumed and nobody waits, while a waiter is parked, after the roll-over
+// pass that released it (next window, partly consumed), while the next waiter is
+// parked, and at the end (after its TTL expiry)
+func scriptedScrapes(o *c.Out) {
+	t0 := int64(1_700_000_000)*sec - (int64(1_700_000_000)*sec)%(6*sec)
+	for quota := int64(1); quota <= 2; quota++ {
+		for mask := 0; mask < 64; mask++ {
+			if enough() {
+				return
+			}
+			rems := []PRemedy{
+				{Name: "queue-a", Quota: quota, WSec: 2, TTL8: 12, QSize: 2, Status: 429},
+				{Name: "queue-b", Quota: quota, WSec: 2, TTL8: 12, QSize: 1, Status: 503},
+			}
+			k := &PCase{T0: t0 + sec/2, Remedies: rems}
+			x := newPRunner(k)
+			g := &pgen{r: o.Rng, x: x, k: k, maxW: 2 * sec, next: 1}
+			at := func(i int) {
+				if mask>>i&1 == 1 {
+					g.do(POp{K: "scrape"})
+				}
+			}
+			come := func(rem int) {
+				id := g.start(rem, false, nil)
+				g.do(POp{K: "enq", ID: id})
+			}
+			at(0)
+			for i := int64(0); i < quota; i++ {
+				come(0)
+			}
+			come(1)
+			at(1)
+			come(0) // has to wait
+			at(2)
+			g.adv(t0 + 2*sec) // the pass of the boundary lets it through
+			at(3)
+			for i := int64(0); i < quota; i++ {
+				come(0) // the last one has to wait and expires inside the window
+			}
+			at(4)
+			g.drain()
+			at(5)
+			x.finish()
+			recordP(o, k)
 		}
 	}
 }
